@@ -352,6 +352,9 @@ def step (d : LBqm Rat) (line : String) : LBqm Rat × String :=
       pure (match m.changeVartype (← vt4? target) (← v.toNat?) with
         | some m' => "ok " ++ showCqmC m'
         | none => "err type")
+  | ["cqms2b", info, obj, cons] => pure1 do
+      let m ← parseCqmC info obj cons
+      pure ("ok " ++ showCqmC m.spinToBinary)
   | ["pycv", l, a, o, target] => pure1 do
       let lin ← parseRats l
       let adj ← parseAdj a
@@ -359,6 +362,10 @@ def step (d : LBqm Rat) (line : String) : LBqm Rat × String :=
       let t := match (← vt? target) with | .binary => pyToBinary | .spin => pyToSpin
       let m' := m.changeVartypeWith t
       pure s!"{showRats (m'.rows.map (·.1))}|{showAdj (some (m'.rows.map (·.2)))}|{showRat m'.off}"
+  | ["sscv", vt, rows, en, target, off] => pure1 do
+      let s : SSet Rat := { vt := (← vt? vt), rows := (← parseRows rows), energy := (← parseRats en) }
+      let r := s.changeVartype (← vt? target) (← parseRat? off)
+      pure s!"{showVT r.vt} {showRows r.rows} {showRats r.energy}"
   | ["isingtoqubo", h, j, off] => pure1 do
       let (q, o) := isingToQubo (← parseItems h) (← parsePairItems j) (← parseRat? off)
       pure s!"{showPairItems q} {showRat o}"
